@@ -16,7 +16,9 @@ for p in ALL:
     out[p] = sorted(k for k, v in res.rules.items() if v["instances"] > 0)
     # instance-level confirmation only for rules whose instance keys are semantic; C09 SC-1 keys carry the source text of the
     # comparison (diagnostic), which every refactoring changes - that rule is confirmed by count only
-    TEXT_KEYED = {("C09", "SC-1")}
+    # (SC-3 / EX-2 instance keys name the form, degree and constant of a decision site: a refactoring that rewrites the test
+    # changes them without changing what is decided - confirmed by count as well)
+    TEXT_KEYED = {("C09", "SC-1"), ("C09", "SC-3"), ("C13", "EX-2")}
     out["instances"][p] = {r: sorted(keys) for r, keys in res.decided.items() if 0 < len(keys) <= 40 and (p, r) not in TEXT_KEYED}
 json.dump(out, open(os.path.join(HERE, "cxa", "confirmed_rules.json"), "w"), indent=1, sort_keys=True)
 print({p: (len(out[p]), sum(len(v) for v in out["instances"][p].values())) for p in ALL})
